@@ -902,6 +902,14 @@ def index_protocol(ctx, res):
         fl = F(mod, fn, qual)
         fl.run(frozenset())
         if not uses:
+            # the parameter is converted into a new local and only that is
+            # used numerically: nothing to check on the raw argument
+            if any(isinstance(c, ast.Call) and norm(c.func) in (
+                    "operator.index", "int") and c.args
+                    and norm(c.args[0]) == p for c in ast.walk(fn)):
+                n += 1
+                res.instance(qual, mod.loc(fn), parameter=p, numeric_uses=0)
+                res.oblige(True, qual, "", "")
             continue
         n += 1
         res.instance(qual, mod.loc(fn), parameter=p, numeric_uses=len(uses))
